@@ -233,6 +233,7 @@ class Interp:
             self.fail(owner, 'hang', f'{what}: {e}')
         except BaseException as e:
             if getattr(e, '_injected', False):
+                e.__traceback__ = None  # no frame cycle keeping handlers
                 return e
             kind = 'dispatch_raised'
             self.fail(owner, kind, f'{what} raised {type(e).__name__}: {e}')
